@@ -572,8 +572,14 @@ def fuses(t1, t2):
 
 
 def sci_risk(t1, t2, t3):
-    """t1 t2 t3 written without separators might be read as one scientific literal"""
-    return is_word(t1) and t2 in ("+", "-") and is_word(t3) and t1[-1:] in "eE"
+    """t1 t2 t3 written without separators would be read as one scientific literal (price-tax is not: the glued text is no number)"""
+    if not (is_word(t1) and t2 in ("+", "-") and is_word(t3) and t1[-1:] in "eE"):
+        return False
+    try:
+        float(t1 + t2 + t3)
+        return True
+    except ValueError:
+        return False
 
 
 def rand_separator(r, must, after_slash, comments=True):
